@@ -68,7 +68,7 @@ def variance(chk, prog, c):
         a = prog.adts.get(b)
         if a and not any(g["kind"] == "lifetime" for g in a["generics"]):
             chk.inst("variance", "%s[%s]" % (b, c), False, detail="branded type %s lost its brand lifetime" % b)
-    chk.floor("invariant-brands[%s]" % c, n, 11)
+    chk.floor("invariant-brands[%s]" % c, n, 6)
 
 
 def static_impls(chk, prog, c):
@@ -98,7 +98,7 @@ def static_impls(chk, prog, c):
                         "accepted as (untraced / unbarriered) arena data" % (im["self_s"], need),
                  loc="%s:%s" % (im["span"]["f"], im["span"]["l"]),
                  sample={"impl": im["self_s"], "predicates": [p["s"] for p in im["predicates"]]})
-    chk.floor("static-only-impls[%s]" % c, n, 4)
+    chk.floor("static-only-impls[%s]" % c, n, 2)
 
 
 def rebrand(chk, prog, c):
@@ -116,7 +116,7 @@ def rebrand(chk, prog, c):
     chk.inst("rebrand-inventory", "lifetime-only-transmutes[%s]" % c, not extra,
              detail="lifetime-only transmute (re-branding) outside the reviewed functions: %s" % extra,
              sample={"sites": fns})
-    chk.floor("rebrand-sites[%s]" % c, len(sites), 6)
+    chk.floor("rebrand-sites[%s]" % c, len(sites), 3)
     for fn in ("dynamic_roots::DynamicRootSet::fetch", "dynamic_roots::DynamicRootSet::try_fetch"):
         if not chk.anchor(fn, fn in prog.seed_n):
             continue
@@ -168,4 +168,4 @@ def static_returns(chk, prog, c):
         chk.inst("no-static-branded-return", "%s[%s]" % (f["n"], c), not bad,
                  detail="exported safe fn `%s` returns `%s`: a branded value at 'static escapes every callback" % (f["n"], out),
                  nontrivial=bad)
-    chk.floor("exported-fns[%s]" % c, n, 150)
+    chk.floor("exported-fns[%s]" % c, n, 80)
